@@ -10,6 +10,7 @@
 import EasyMl.Props.C02
 import EasyMl.Props.C12
 import EasyMl.Lemmas.SurvivorViews
+import EasyMl.Props.C09
 
 namespace EasyMl.C10
 open EasyMl EasyMl.Spec EasyMl.View
@@ -105,5 +106,44 @@ example :
         ((mkChain [t1, t2] "a").isNone, (mkStack [t1, t2] (0, "s")).isNone,
           (mkChain [t1, t1] "a").isSome))) = some (true, true, true) := by
   rfl
+
+/-! ## the whole chain: constructed leaves → view stack → iterator -/
+
+/-- **`unchecked_safe` for view stacks, without hypotheses on the containers.**  Take ANY view
+    obtained from leaves built by the public constructors (`Tensor::from`, `TensorRefMatrix` over a
+    `Matrix::from_flat_row_major`) through ANY stack of adaptor constructors, mutators and writes
+    (`Built v`, C02: every `TensorRange/Mask/Index/Expansion/Rename/Reverse/Access/Transpose/
+    Stack/Chain` form, to any depth), and iterate it with any element iterator for any number of
+    calls.  On call `k` the iterator hands the view the `k`-th position of the shape the view
+    reports (C09); that position is inside the shape; the view's unchecked getter completes on it,
+    reaches the cell the checked getter answers, and that cell lies in one of the view's own
+    leaves below the leaf's stored element count.  No unchecked access of the whole chain is out
+    of contract. -/
+theorem unchecked_safe_views [Inhabited ν] (v : View ν α) (hb : Built v) (k : Nat) (idx : List Nat)
+    (hk : Spec.shapeItem (lens v.shape) k = some idx) :
+    inBounds (lens v.shape) idx = true ∧
+      ∃ c data, v.getUnchecked idx = .ok c ∧ v.get idx = .ok (some c) ∧
+        (c.1, data) ∈ v.leaves ∧ c.2 < data.length := by
+  have hin : inBounds (lens v.shape) idx = true := by
+    unfold Spec.shapeItem at hk
+    split at hk
+    · rename_i hlt
+      cases hk
+      exact Iter.unravel_inBounds _ k hlt
+    · cases hk
+  exact ⟨hin, view_unchecked_inBounds v hb.wf idx hin⟩
+
+/-- non-vacuity: a range over a reversed 2×3 tensor is a constructed view (`Built`), and call 3 of
+    an iterator over its 2×2 shape asks for position `[1, 1]` -/
+example : ∀ v : View String Nat,
+    (mkTensor 0 [("a", 2), ("b", 3)] (List.range 6)).bind
+        (fun t => (mkReverse t ["b"]).bind (fun r => mkRange r [("b", ⟨1, 2⟩)])) = some v →
+      Built v := by
+  intro v h
+  simp only [Option.bind_eq_some_iff] at h
+  obtain ⟨t, ht, r, hr, hv⟩ := h
+  exact Built.range (Built.reverse (Built.tensor ht (by decide)) hr) hv
+
+example : Spec.shapeItem [2, 2] 3 = some [1, 1] := by decide
 
 end EasyMl.C10
